@@ -12,6 +12,7 @@ reference : ref(recipe) = outcome of building from all-fresh components in a
 from __future__ import annotations
 
 import os
+import re
 import struct
 import zlib
 
@@ -915,6 +916,7 @@ def reference_worker(arg) -> dict:
 
     boot.bootstrap()
     recipe = arg["recipe"]
+    apply_ambient(recipe.get("ambient"))
     warm = arg.get("warmup")
     figdir = arg.get("figdir") or tempfile.mkdtemp(prefix="vfig")
     os.makedirs(figdir, exist_ok=True)
@@ -974,6 +976,134 @@ def reference_worker(arg) -> dict:
     if want_sites:
         res["sites"] = sorted(sites)
     return res
+
+
+# Ambient process configuration a caller may legitimately have set before using the library (swarm dimension: the
+# reference for a recipe that carries an "ambient" entry is computed under the same configuration)
+AMBIENTS = [
+    {"polars": {"tbl_rows": 100, "fmt_str_lengths": 80, "fmt_table_cell_list_len": 30}},
+    {"polars": {"tbl_rows": 4, "fmt_str_lengths": 12}},
+    {"polars": {"float_precision": 1, "thousands_separator": ",", "tbl_rows": 50}},
+    {"decimal_prec": 5, "recursion": 1500},
+    {"warnings": "always", "cwd": True},
+    {"polars": {"tbl_rows": 60}, "decimal_prec": 9, "warnings": "always"},
+    {"knobs": "small"},
+    {"knobs": "small", "polars": {"tbl_rows": 100, "fmt_str_lengths": 80}},
+]
+
+_KNOB_GLOBAL = re.compile(r"(?i)((cache|lru|pool|buffer|queue|memo)\w*(size|max|cap|limit|len|entries))"
+                          r"|((max|maximum)_?(size|entries|items|len))|capacity")
+_KNOB_ATTR = re.compile(r"(?i)^_*(max_?size|capacity|max_?entries|max_?items|max_?len|size_?limit|limit)$")
+
+
+def shrink_capacities(to: int = 2) -> list:
+    """Tuning knobs (DESIGN: "a cache too large for the miss path to run is the classic blind spot"): capacities of
+    caches, pools and buffers inside the package are set to a tiny value, so that eviction and overflow paths run
+    with small documents.  Recognised by name and value only (>= 8): module-level integers, integer attributes of
+    module-level / class-level instances of the package's classes, and functools.lru_cache wrappers (rebuilt with
+    maxsize 2).  The pinned tree has none.  References are computed under the same setting."""
+    import functools
+    import sys
+    import types
+
+    import_all()
+    done = []
+    mods = [(n, m) for n, m in sorted(sys.modules.items()) if m is not None and (n == "rtflite" or n.startswith("rtflite."))]
+    replaced: dict = {}
+
+    def shrink_obj(label, obj):
+        d = getattr(obj, "__dict__", None)
+        if not isinstance(d, dict):
+            return
+        for a, av in list(d.items()):
+            if isinstance(av, int) and not isinstance(av, bool) and av >= 8 and _KNOB_ATTR.match(a):
+                try:
+                    setattr(obj, a, to)
+                    done.append(f"{label}.{a}: {av} -> {to}")
+                except Exception:  # noqa: BLE001
+                    pass
+
+    def relru(fn):
+        if id(fn) in replaced:
+            return replaced[id(fn)]
+        try:
+            params = fn.cache_parameters()
+        except Exception:  # noqa: BLE001
+            return None
+        if params.get("maxsize") is not None and params["maxsize"] <= to:
+            return None
+        new = functools.lru_cache(maxsize=to, typed=params.get("typed", False))(fn.__wrapped__)
+        replaced[id(fn)] = new
+        return new
+
+    for n, m in mods:
+        for k, v in list(vars(m).items()):
+            if k.startswith("__"):
+                continue
+            if isinstance(v, int) and not isinstance(v, bool) and v >= 8 and _KNOB_GLOBAL.search(k):
+                setattr(m, k, to)
+                done.append(f"{n}.{k}: {v} -> {to}")
+            elif hasattr(v, "cache_info") and hasattr(v, "__wrapped__"):
+                new = relru(v)
+                if new is not None:
+                    setattr(m, k, new)
+                    done.append(f"{n}.{k}: lru_cache -> maxsize {to}")
+            elif isinstance(v, type):
+                if getattr(v, "__module__", None) != n:
+                    continue
+                for a, av in list(vars(v).items()):
+                    if a.startswith("__"):
+                        continue
+                    if isinstance(av, int) and not isinstance(av, bool) and av >= 8 and _KNOB_ATTR.match(a):
+                        setattr(v, a, to)
+                        done.append(f"{n}.{k}.{a}: {av} -> {to}")
+                    elif hasattr(av, "cache_info") and hasattr(av, "__wrapped__"):
+                        new = relru(av)
+                        if new is not None:
+                            setattr(v, a, new)
+                            done.append(f"{n}.{k}.{a}: lru_cache -> maxsize {to}")
+                    elif not isinstance(av, (type, types.FunctionType, staticmethod, classmethod, property)) and \
+                            (getattr(type(av), "__module__", "") or "").startswith("rtflite"):
+                        shrink_obj(f"{n}.{k}.{a}", av)
+            elif not isinstance(v, (types.ModuleType, types.FunctionType)) and \
+                    (getattr(type(v), "__module__", "") or "").startswith("rtflite"):
+                shrink_obj(f"{n}.{k}", v)
+    return done
+
+
+def apply_ambient(amb):
+    if not amb:
+        return
+    if amb.get("polars"):
+        import polars as pl
+
+        for k, v in sorted(amb["polars"].items()):
+            getattr(pl.Config, "set_" + k)(v)
+    if amb.get("decimal_prec"):
+        import decimal
+
+        decimal.getcontext().prec = amb["decimal_prec"]
+    if amb.get("recursion"):
+        import sys
+
+        sys.setrecursionlimit(amb["recursion"])
+    if amb.get("warnings"):
+        import warnings
+
+        warnings.simplefilter(amb["warnings"])
+    if amb.get("cwd"):
+        import tempfile
+
+        os.chdir(tempfile.gettempdir())
+    if amb.get("knobs") == "small":
+        shrink_capacities()
+
+
+def plan_ambient(recipes):
+    for r in recipes:
+        if isinstance(r, dict) and r.get("ambient"):
+            return r["ambient"]
+    return None
 
 
 def import_all():
